@@ -77,7 +77,17 @@ def run(pid, tier, seed, known_findings):
         first = (with_file or d["violations"])[0].split("|")
         rec["status"] = "violation"
         rec["note"] = "%d layouts violate; first: %s" % (d["n_violations"], first[1][:300] if len(first) > 1 else "")
-        rec["replay"] = {"path": first[0], "labels": ["output differs from the source rules at a point"]}
+        path = first[0]
+        if not path and len(first) > 2:
+            # no file was written for this one (cap of 25 per run): write it from the report entry
+            m = re.match(r"at \[([^\]]*)\]", first[1])
+            path = os.path.join(rdir, "C16-bv-first-violation.json")
+            try:
+                json.dump({"kind": "bv", "property": "C16", "layout": json.loads(first[2]), "point": [float(x) for x in m.group(1).split(",")] if m else [],
+                           "what": first[1], "replay_cmd": "bin/vk replay " + path}, open(path, "w"))
+            except Exception:
+                path = first[0]
+        rec["replay"] = {"path": path, "labels": ["output differs from the source rules at a point"]}
         rec["violations"] = [v[:600] for v in d["violations"][:10]]
     elif d["n_known"] and not kf:
         # the deviation is explained by the fontTools pre-pass but no known finding lists it: it is a violation
